@@ -633,10 +633,11 @@ func c17Worker(args []string) {
 		c17Die("usage: worker c17 <config> <root> <cases> <out> <chroot|nochroot> [mark] [verbose]")
 	}
 	cfgName, root, casesPath, outPath, mode := args[0], args[1], args[2], args[3], args[4]
-	mark, verbose := false, false
+	mark, verbose, reinit := false, false, false
 	for _, a := range args[5:] {
 		mark = mark || a == "mark"
 		verbose = verbose || a == "verbose"
+		reinit = reinit || a == "reinit"
 	}
 	cfg, ok := c17Config(cfgName)
 	if !ok {
@@ -686,6 +687,12 @@ func c17Worker(args []string) {
 	// logging is silenced by LOGGER_LEVEL=Critical in the child's environment (fortio.org/log reads it at start)
 	if err := extensions.Init(cfg); err != nil {
 		c17Die("extensions.Init: %v", err)
+	}
+	if reinit {
+		// a second and third call with the most and the least permissive configurations: the first one stays in force
+		_ = extensions.Init(&extensions.Config{HasLoad: true, HasSave: true, UnrestrictedIOs: true})
+		_ = extensions.Init(&extensions.Config{HasLoad: true, HasSave: true, LoadSaveEmptyOnly: true})
+		_ = extensions.Init(nil)
 	}
 	opts := repl.EvalStringOptions() // All, ShowEval, NoColor; AutoLoad/AutoSave off
 	enc := json.NewEncoder(w)
